@@ -64,7 +64,7 @@ theorem PendOk.completions {d : RState} (h : PendOk d) : completions d.st d.pend
     cases hk : p.kind with
     | slow a b => rfl
     | run a b => rfl
-    | upl a b c d => rfl
+    | upl a b c => rfl
     | del i f => rw [hk] at this; simp [this.2]
     | cls i => rw [hk] at this; simp [this.2]
   have h2 : d.pend.filter (keepOf d.st) = d.pend := by
@@ -75,7 +75,7 @@ theorem PendOk.completions {d : RState} (h : PendOk d) : completions d.st d.pend
     cases hk : p.kind with
     | slow a b => rfl
     | run a b => rfl
-    | upl a b c d => rfl
+    | upl a b c => rfl
     | del i f => rw [hk] at this; simp [this.2]
     | cls i => rw [hk] at this; simp [this.2]
   rw [h1, h2]
